@@ -23,7 +23,7 @@ from sklearn.base import BaseEstimator
 from common import fx, unfx, rq, enc_list, dec_list, close
 
 REQUIRED = ['kfold_partition', 'schedule_out_of_fold', 'coef_convex', 'coef_nan_iff', 'discrete_onehot',
-            'predict_combination', 'predict_combination_nll', 'predict_in_hull', 'predict_in_hull_nll',
+            'discrete_tie_first', 'predict_combination', 'predict_combination_nll', 'predict_in_hull', 'predict_in_hull_nll',
             'stepwise_sound', 'stepwise_not_worse', 'stepwise_local_opt', 'stepwise_start_nan',
             # Props/C20_Gen.lean: ties of the regenerated lines of SuperLearner.fit / predict (Gen/Stack.lean) to the model
             'sl_coefficients_generated', 'coef_convex_generated', 'sl_fit_full_generated', 'sl_fit_discrete_generated',
@@ -40,7 +40,11 @@ RULE = ('SuperLearner: cells loss {L2, nloglik} x discrete {no, yes} x 1..5 cand
         'already seen, like sklearn warm_start=True); every SuperLearner case is repeated with X / y (fit and predict) as lists '
         'and as pandas objects with default, shifted and permuted integer labels (int and float outcome dtype) and '
         'compared exactly with the ndarray run, the hold-out discipline being judged on the outcome values the '
-        'clones received; the stand-alone estimators get the same container variants.  StepwiseSL: cells direction x family {Gaussian, Binomial, Poisson} x '
+        'clones received; the stand-alone estimators get the same container variants; matched sets (2-4 levels, one '
+        'group-specific learner per level, a drawn subset of levels sharing the outcome) so that candidates are '
+        'EXACTLY tied for the largest weight or for a lower one, discrete and not; per case, independently drawn '
+        'options outside the statement (verbose, upper-case loss / solver, non-default bounds, summary() between fit '
+        'and predict).  StepwiseSL (verbose drawn per case): cells direction x family {Gaussian, Binomial, Poisson} x '
         'order_interaction 0..2 x 1..4 columns, a third with injected NaN AICs.  distinct = distinct (cell, n, data '
         'seed); non-trivial = n mod folds != 0 or >= 2 candidates (SL); search took >= 1 step (stepwise)')
 ASSUMPTIONS = ['sklearn KFold(k, shuffle=False) yields contiguous folds, the first n mod k of size n//k + 1 (measured '
@@ -67,14 +71,18 @@ def _h(*a):
 
 class Cand(BaseEstimator):
     """spy candidate; column 0 of X = row id.  flavor: 0 mean, 1 OLS on x1, 2 OLS on all x, 3 noise about the mean,
-    4 mirrored OLS (anti-correlated: gets coefficient 0).  Rows seen in fit are answered with their outcome."""
+    4 mirrored OLS (anti-correlated: gets coefficient 0), 5 group-specific learner (the mean outcome of the rows
+    whose column 1 equals `arm`, times `scale`; 0 for rows of other groups).  Rows seen in fit are answered with
+    their outcome."""
 
-    def __init__(self, cand=0, flavor=0, binary=False, inner=None, warm=False):
+    def __init__(self, cand=0, flavor=0, binary=False, inner=None, warm=False, arm=0, scale=1.0):
         self.cand = cand
         self.flavor = flavor
         self.binary = binary
         self.inner = inner
         self.warm = warm            # warm start: fit() continues from what the object has already seen
+        self.arm = arm              # flavor 5 (group-specific learner): the level of column 1 it answers for
+        self.scale = scale          # flavor 5: its group mean is reported times `scale`
         self.token_ = next(_UID)       # identity of the Python object (id() is reused after garbage collection)
 
     def fit(self, X, y):
@@ -87,6 +95,8 @@ class Cand(BaseEstimator):
         self.ymap_ = dict(getattr(self, 'ymap_', {}) if self.warm else {})
         self.ymap_.update(zip(ids, y.tolist()))
         self.mean_ = float(y.mean()) if len(y) else 0.0
+        own = X[:, 1] == self.arm
+        self.gmean_ = float(y[own].mean()) if own.any() else 0.0
         Z = np.column_stack([np.ones(len(y)), X[:, 1:2] if self.flavor in (1, 4) else X[:, 1:]])
         self.beta_ = np.linalg.lstsq(Z, y, rcond=None)[0] if len(y) else np.zeros(Z.shape[1])
         if self.inner is not None:
@@ -118,9 +128,13 @@ class Cand(BaseEstimator):
                 v = np.array([self.mean_ + 0.4 * (_h(self.cand, i) - 0.5) for i in ids])
             elif self.flavor == 4:
                 v = 2 * self.mean_ - Z @ self.beta_
+            elif self.flavor == 5:
+                v = np.full(len(ids), self.scale * self.gmean_)
             else:
                 v = Z @ self.beta_
             v = np.array([self.ymap_.get(i, float(x)) for i, x in zip(ids, v)])
+            if self.flavor == 5:      # a group-specific learner contributes nothing outside its group
+                v = np.where(X[:, 1] == self.arm, v, 0.0)
         if self.binary:
             v = np.clip(v, 0.0, 1.0)
         if LOGGING[0]:
@@ -165,6 +179,27 @@ def proba_of(est, X, loss):
 def sl_data(case):
     r = np.random.default_rng(case['data_seed'])
     n, nn = case['n'], case['n_new']
+    if case.get('matched'):
+        # matched sets (paired / crossover / twin designs): every set contributes `arms` consecutive rows, one per
+        # level of column 1, sharing a set-level covariate; the outcome of a set is the same under the `tied` levels
+        # and shifted under the others.  With one group-specific learner per level the tied learners earn EXACTLY
+        # the same non-negative-least-squares weight whenever the folds cut between sets.
+        mt = case['matched']
+        L = mt['arms']
+        arm = (np.arange(n + nn) % L).astype(float)
+        sets = np.arange(n + nn) // L
+        ns = int(sets.max()) + 1
+        z = np.round(r.normal(size=ns), 3)
+        if case['loss'] == 'nloglik' or case.get('binary_y'):
+            base = (r.uniform(size=ns) < 1 / (1 + np.exp(-(0.3 + 0.8 * z)))).astype(float)
+            y = base[sets]
+            flip = np.isin(arm, mt['shifted']) & (r.uniform(size=n + nn) < 0.3)
+            y = np.where(flip, 1 - y, y)
+        else:
+            base = np.round(3.0 + 0.9 * z + r.normal(scale=0.7, size=ns), mt.get('decimals', 1))
+            y = base[sets] + np.where(np.isin(arm, mt['shifted']), np.round(0.5 + arm / 4, 2), 0.0)
+        X = np.column_stack([np.arange(n + nn, dtype=float), arm, z[sets]])
+        return X[:n], y[:n], X[n:]
     x = np.round(r.normal(size=(n + nn, 2)), 3)
     x[:, 1] = (x[:, 1] > 0.2).astype(float) if case['data_seed'] % 2 else x[:, 1]
     lin = 0.4 + 0.9 * x[:, 0] - 0.6 * x[:, 1]
@@ -193,7 +228,8 @@ def make_cands(case):
                      'step': lambda: StepwiseSL(family=fam, selection='forward', order_interaction=0),
                      'sk': lambda: (LogisticRegression(C=1.0, max_iter=300) if binary else LinearRegression())
                      }[spec['inner']]()
-        out.append(cls(cand=c, flavor=spec.get('flavor', 0), binary=binary, inner=inner, warm=bool(spec.get('warm'))))
+        out.append(cls(cand=c, flavor=spec.get('flavor', 0), binary=binary, inner=inner, warm=bool(spec.get('warm')),
+                       arm=spec.get('arm', 0), scale=spec.get('scale', 1.0)))
     return out
 
 
@@ -263,21 +299,45 @@ def collapse(log):
     return out
 
 
+def sl_make(case, cands):
+    """the SuperLearner of a case.  `opts` (round 4) are constructor options and calls that the property does not
+    mention and that therefore must not matter: the progress report (`verbose=True`), the documented upper-case
+    spellings of loss and solver, a non-default `bounds` (which enters the log-likelihood combination as documented),
+    and `summary()` called between fit and predict."""
+    from zepid.superlearner import SuperLearner
+    o = case.get('opts') or {}
+    kw = dict(folds=case['k'], loss_function=o.get('loss_spelling') or case['loss'], discrete=case['discrete'])
+    for k_ in ('bounds', 'verbose', 'solver'):
+        if k_ in o:
+            kw[k_] = o[k_]
+    return SuperLearner(cands, ['c%d' % i for i in range(len(cands))], **kw)
+
+
+def bounds_of(case):
+    return float((case.get('opts') or {}).get('bounds', 1e-6))
+
+
+def quiet():
+    import contextlib
+    import io
+    return contextlib.redirect_stdout(io.StringIO())
+
+
 def run_sl(case, container='ndarray'):
     """fit + predict on the implementation -> dict of observables"""
-    from zepid.superlearner import SuperLearner
     X, y, Xnew = sl_data(case)
     cands = make_cands(case)
     del LOG[:]
     out = {'err': None, 'orig_ids': [c.token_ for c in cands]}
-    with warnings.catch_warnings():
+    with warnings.catch_warnings(), quiet():
         warnings.simplefilter('ignore')
         try:
-            sl = SuperLearner(cands, ['c%d' % i for i in range(len(cands))], folds=case['k'],
-                              loss_function=case['loss'], discrete=case['discrete'])
+            sl = sl_make(case, cands)
             Xc, yc, Xqc = contain(X, y, np.vstack([Xnew, X[:5]]), container, case['data_seed'])
             sl.fit(Xc, yc)
             out['fit_log'] = collapse(LOG)
+            if (case.get('opts') or {}).get('summary'):
+                sl.summary()
             out['coefs'] = [float(c) for c in sl.coefficients]
             out['perf_coefs'] = [float(c) for c in sl.est_performance['coefs']]
             out['cv_error'] = [float(c) for c in sl.est_performance['cv_error']]
@@ -320,28 +380,39 @@ def d_superlearner(chk, case, out, X, y, Xq):
     # the known unguarded case (finding C20-a) is recognised from the input side: a reference nnls on the observed
     # out-of-fold predictions returns only entries below sqrt(eps) (forced by the all-zero-outcome stream, and
     # reached naturally e.g. by leave-one-out folds on 10 binary rows)
-    sig = None
+    sig, wref = None, None
     try:
         from scipy.optimize import nnls
         cvo = np.full((n, m), np.nan)
         for e in preds:
             cvo[e['ids'], e['cand']] = e['values']
-        if not np.isnan(cvo).any() and np.all(nnls(cvo, y)[0] < SQRT_EPS):
-            sig = {'class': 'SuperLearner', 'case': 'all_coefficients_below_threshold'}
-            chk.count('sl_all_coefficients_below_threshold')
+        if not np.isnan(cvo).any():
+            wref = nnls(cvo, y)[0]
+            if np.all(wref < SQRT_EPS):
+                sig = {'class': 'SuperLearner', 'case': 'all_coefficients_below_threshold'}
+                chk.count('sl_all_coefficients_below_threshold')
+                wref = None
     except Exception:
-        pass
+        wref = None
     co = np.array(out['coefs'])
     ok = bool(np.all(np.isfinite(co)) and np.all(co >= 0) and abs(co.sum() - 1) <= 1e-9)
     chk.d(ok, 'coefficients are non-negative and sum to one', dict(ctx, coefs=out['coefs']), signature=sig)
     if not ok:
         return
+    w = np.array(out['perf_coefs'])
+    if np.all(np.isfinite(w)) and m >= 2 and int(np.sum(w == w.max())) >= 2:
+        chk.count('sl_tied_largest_weight' + ('_discrete' if case['discrete'] else ''))
     if case['discrete']:
-        w = np.array(out['perf_coefs'])
-        chk.d(sorted(co.tolist()) == [0.0] * (m - 1) + [1.0] and co[int(np.argmax(w))] == 1.0 and
-              w[int(np.argmax(co))] >= w.max(),
+        # (with several candidates tied for the largest weight the property asks for one of them, whichever)
+        chk.d(sorted(co.tolist()) == [0.0] * (m - 1) + [1.0] and w[int(np.argmax(co))] >= w.max(),
               'discrete: a single coefficient of one, on the candidate with the largest weight', dict(ctx, w=w.tolist()),
               signature=sig)
+        if wref is not None:
+            # the weights themselves, from a reference nnls on the out-of-fold predictions the clones returned
+            # (1e-9: the reference sees the same numbers, possibly in another memory layout)
+            chk.d(bool(wref[int(np.argmax(co))] >= wref.max() * (1 - 1e-9)),
+                  'discrete: the selected candidate has the largest non-negative-least-squares weight on the '
+                  'out-of-fold predictions', dict(ctx, reference_weights=wref.tolist(), coefs=out['coefs']))
     # predictions: combination of the retained candidates refitted on all rows
     last_fit = {}
     for e in fits:
@@ -358,14 +429,15 @@ def d_superlearner(chk, case, out, X, y, Xq):
                 P[:, c] = e['values']
     chk.d(good, 'retained candidates answering predict were refitted on all rows', ctx)
     if good:
-        want = np_predict(case['loss'], co, P, 1e-6)
+        b = bounds_of(case)
+        want = np_predict(case['loss'], co, P, b)
         got = np.array(out['pred'])
         # tolerance: both sides are a handful of float operations on the same inputs
         chk.d(bool(np.allclose(got, want, rtol=1e-9, atol=1e-12)),
               'predict = coefficient-weighted combination (logit scale for nloglik)', ctx)
         R = P[:, co > 0]
         if case['loss'] == 'nloglik':
-            R = np.clip(R, 1e-6, 1 - 1e-6)
+            R = np.clip(R, b, 1 - b)
         chk.d(bool(np.all(got >= R.min(axis=1) - 1e-9) and np.all(got <= R.max(axis=1) + 1e-9)),
               'prediction within the range of the retained candidates\' predictions', ctx)
 
@@ -412,6 +484,21 @@ def k_superlearner(chk, drv, case, out, X, y, Xq):
     if not np.all(raw >= 0):
         chk.discard('reference nnls returned a negative entry')
         return
+    # Weights equal up to rounding (candidates tied for the largest weight): the implementation selects on the
+    # NORMALISED float weights, and dividing by the float sum can turn a last-bit difference of the raw solution
+    # into an exact tie (measured: raw ...74p-1 < ...75p-1, both normalised to 0x1.0000000000002p-2), which the model,
+    # normalising in exact rationals, cannot reproduce from the raw solution.  The selection logic is then driven by
+    # the weights the implementation itself reports (est_performance['coefs'], exact rationals of the floats: the
+    # model must pick their first maximiser), and those weights are compared with the reference to 1e-9.
+    top = np.sort(raw)[::-1]
+    if case['discrete'] and m >= 2 and out['err'] is None and top[0] >= SQRT_EPS and \
+            top[0] - top[1] <= 1e-9 * top[0] and np.all(np.isfinite(out['perf_coefs'])):
+        thr_raw = np.where(raw < SQRT_EPS, 0.0, raw)
+        chk.k(bool(np.allclose(out['perf_coefs'], thr_raw / thr_raw.sum(), rtol=1e-9, atol=1e-12)),
+              'weights before the discrete selection: est_performance vs reference nnls',
+              dict(ctx, impl=out['perf_coefs'], reference=(thr_raw / thr_raw.sum()).tolist()))
+        raw = np.array(out['perf_coefs'], dtype=float)
+        chk.count('sl_k_selection_driven_by_reported_weights')
     rep, line = drv.ask('slfit', n=n, k=k, m=m, thr=rq(SQRT_EPS), raw=enc_list(raw, rq),
                         discrete=int(case['discrete']))
     if out['err'] is not None:
@@ -440,7 +527,7 @@ def k_superlearner(chk, drv, case, out, X, y, Xq):
             r2, _ = drv.ask('slerr', loss='l2', y=enc_list(y, rq), p=enc_list(cv[:, c], rq))
             val = float(unrqf(r2['err'])) if r2['status'] == 'ok' else float('nan')
         else:
-            r2, _ = drv.ask('slerr', loss='nloglik', b=fx(1e-6), y=enc_list(y, fx), p=enc_list(cv[:, c], fx))
+            r2, _ = drv.ask('slerr', loss='nloglik', b=fx(bounds_of(case)), y=enc_list(y, fx), p=enc_list(cv[:, c], fx))
             val = unfx(r2['err']) if r2['status'] == 'ok' else float('nan')
         # n-term float sums in different association orders
         chk.k(close(val, out['cv_error'][c], rtol=1e-9, atol=1e-12), 'cross-validated error: model vs implementation',
@@ -450,7 +537,7 @@ def k_superlearner(chk, drv, case, out, X, y, Xq):
                         preds=';'.join(enc_list(row, rq) for row in Pq))
         mp = [float(unrqf(s)) for s in r3['y'].split(',')] if r3['status'] == 'ok' else []
     else:
-        r3, _ = drv.ask('slpredict', loss='nloglik', b=fx(1e-6), coefs=enc_list(mc, fx),
+        r3, _ = drv.ask('slpredict', loss='nloglik', b=fx(bounds_of(case)), coefs=enc_list(mc, fx),
                         preds=';'.join(enc_list(row, fx) for row in Pq))
         mp = dec_list(r3['y'], unfx) if r3['status'] == 'ok' else []
     chk.k(len(mp) == len(out['pred']) and all(close(a, b_, rtol=1e-9, atol=1e-12) for a, b_ in zip(mp, out['pred']))
@@ -470,6 +557,10 @@ def check_sl(chk, drv, case):
              sample=case if chk.evals % 17 == 0 else None)
     chk.count('sl_' + case['loss'] + ('_discrete' if case['discrete'] else ''))
     chk.count('sl_n_mod_k_nonzero' if n % max(k, 1) else 'sl_n_mod_k_zero')
+    for k_ in sorted(case.get('opts') or {}):
+        chk.count('sl_opt_' + k_)
+    if case.get('matched'):
+        chk.count('sl_matched_sets')
     if out['err'] is not None:
         chk.count('sl_impl_exception:' + out['err'].split(':')[0])
     if drv is not None:
@@ -517,11 +608,10 @@ def check_refit(chk, case):
     case2 = dict(case, data_seed=case['data_seed'] + 1)
     X2, y2, Xnew2 = sl_data(case2)
     res = {}
-    with warnings.catch_warnings():
+    with warnings.catch_warnings(), quiet():
         warnings.simplefilter('ignore')
         for tag in ('fresh', 'refit'):
-            sl = SuperLearner(make_cands(case), ['c%d' % i for i in range(len(case['cands']))], folds=case['k'],
-                              loss_function=case['loss'], discrete=case['discrete'])
+            sl = sl_make(case, make_cands(case))
             try:
                 if tag == 'refit':
                     sl.fit(X, y)
@@ -550,26 +640,24 @@ def check_shared(chk, case):
     X1, y1, Xn1 = sl_data(case)
     X2, y2, Xn2 = sl_data(dict(case, data_seed=case['data_seed'] + 7))
     Xq = np.vstack([Xn1, X1[:4]])
-    labels = ['c%d' % i for i in range(len(case['cands']))]
-    kw = dict(folds=case['k'], loss_function=case['loss'], discrete=case['discrete'])
     chk.case(case, ('SLshared', case['data_seed']))
     chk.count('sl_shared_candidates')
     res = {}
     LOGGING[0] = False
     try:
-        with warnings.catch_warnings():
+        with warnings.catch_warnings(), quiet():
             warnings.simplefilter('ignore')
             try:
                 shared = make_cands(case)
                 before = _snapshot(shared)
-                A = SuperLearner(shared, labels, **kw).fit(X1, y1)
+                A = sl_make(case, shared).fit(X1, y1)
                 res['A_before'] = [float(v) for v in A.predict(Xq)]
-                B = SuperLearner(shared, labels, **kw).fit(X2, y2)
+                B = sl_make(case, shared).fit(X2, y2)
                 res['A_after'] = [float(v) for v in A.predict(Xq)]
                 res['B'] = [float(v) for v in B.predict(Xq)]
                 res['untouched'] = _snapshot(shared) == before
-                res['A_fresh'] = [float(v) for v in SuperLearner(make_cands(case), labels, **kw).fit(X1, y1).predict(Xq)]
-                res['B_fresh'] = [float(v) for v in SuperLearner(make_cands(case), labels, **kw).fit(X2, y2).predict(Xq)]
+                res['A_fresh'] = [float(v) for v in sl_make(case, make_cands(case)).fit(X1, y1).predict(Xq)]
+                res['B_fresh'] = [float(v) for v in sl_make(case, make_cands(case)).fit(X2, y2).predict(Xq)]
             except Exception as e:
                 res['err'] = '%s: %s' % (type(e).__name__, str(e)[:100])
     finally:
@@ -597,7 +685,47 @@ def make_sl_case(rng, loss, discrete, m, k, real=False, n=None):
             cands.append({'flavor': int(rng.integers(0, 5)), 'proba': bool(loss == 'nloglik' and rng.uniform() < 0.6),
                           'warm': bool(rng.uniform() < 0.4), 'gam': bool(loss == 'nloglik' and rng.uniform() < 0.25)})
     return {'kind': 'sl', 'loss': loss, 'discrete': bool(discrete), 'k': int(k), 'n': n,
-            'n_new': int(rng.integers(3, 12)), 'cands': cands, 'data_seed': int(rng.integers(0, 2 ** 31))}
+            'n_new': int(rng.integers(3, 12)), 'cands': cands, 'data_seed': int(rng.integers(0, 2 ** 31)),
+            'opts': make_opts(rng, loss)}
+
+
+def make_opts(rng, loss):
+    """options and calls outside the property's statement, drawn independently of one another (see sl_make)"""
+    o = {}
+    if rng.uniform() < 0.3:
+        o['verbose'] = True
+    if rng.uniform() < 0.3:
+        o['bounds'] = float(rng.choice([0.05, 0.01, 0.001, 1e-4]))
+    if rng.uniform() < 0.3:
+        o['loss_spelling'] = 'L2' if loss == 'l2' else str(rng.choice(['NLogLik', 'NLOGLIK']))
+    if rng.uniform() < 0.2:
+        o['solver'] = 'NNLS'
+    if rng.uniform() < 0.3:
+        o['summary'] = True
+    return o
+
+
+def make_matched_case(rng, loss, discrete, L, k):
+    """matched sets with one group-specific learner per level of column 1 (see sl_data): `tied` levels share the
+    outcome of their set, so their learners earn exactly the same weight when the folds cut between sets (80% of
+    the cases; otherwise the weights are merely close).  The other levels' learners report their group mean times
+    a factor: > 1 earns a smaller weight (the tie is for the LARGEST weight), < 1 a larger one (a tie below it)."""
+    t = int(rng.integers(1, 5)) + (2 if loss == 'nloglik' else 0)
+    n_sets = int(k) * t if rng.uniform() < 0.8 else int(rng.integers(max(int(k), 4), 40))
+    g = int(rng.integers(2, L + 1))
+    tied = sorted(int(a) for a in rng.choice(L, size=g, replace=False))
+    top = bool(rng.uniform() < 0.75)
+    cands = []
+    for a in rng.permutation(L):
+        a = int(a)
+        sc = 1.0 if a in tied else float(rng.choice([1.25, 1.5, 2.0]) if top else rng.choice([0.5, 0.8]))
+        cands.append({'flavor': 5, 'arm': a, 'scale': sc, 'proba': bool(loss == 'nloglik' and rng.uniform() < 0.6),
+                      'warm': bool(rng.uniform() < 0.3)})
+    return {'kind': 'sl', 'loss': loss, 'discrete': bool(discrete), 'k': int(k), 'n': n_sets * L,
+            'n_new': int(rng.integers(3, 12)), 'cands': cands, 'data_seed': int(rng.integers(0, 2 ** 31)),
+            'matched': {'arms': int(L), 'tied': tied, 'shifted': [a for a in range(L) if a not in tied],
+                        'decimals': int(rng.choice([0, 1, 3]))},
+            'opts': make_opts(rng, loss)}
 
 
 # --------------------------------------------------------------------------------------------- StepwiseSL
@@ -682,8 +810,10 @@ def run_stepwise(case):
     try:
         with warnings.catch_warnings():
             warnings.simplefilter('ignore')
-            s = est_mod.StepwiseSL(family=family_of(case), selection=case['dir'], order_interaction=case['order'])
-            s.fit(X, y)
+            kw = {'verbose': True} if case.get('verbose') else {}
+            s = est_mod.StepwiseSL(family=family_of(case), selection=case['dir'], order_interaction=case['order'], **kw)
+            with quiet():
+                s.fit(X, y)
             out['cols'] = [int(c) for c in s.cols_optim]
             out['aic'] = float(s.model_optim.aic)
     except Exception as e:
@@ -738,6 +868,8 @@ def check_stepwise(chk, drv, case):
     chk.count('sw_steps_%d' % min(steps_taken, 3))
     if case['nan_rate']:
         chk.count('sw_nan_injected')
+    if case.get('verbose'):
+        chk.count('sw_verbose_' + case['dir'])
     start = list(range(p)) if case['dir'] == 'backward' else []
     # ---- D (before any early return of K): the search space is the documented one.  `order_interaction=k` explores
     # the main effects and every interaction up to order k (a product of up to k+1 distinct columns); backward
@@ -895,7 +1027,9 @@ def check_estimators(chk, case):
 
 def make_sw_case(rng, d, fam, order, q, nan_rate):
     return {'kind': 'sw', 'dir': d, 'family': fam, 'order': int(order), 'q': int(q),
-            'n': int(rng.integers(30, 120)), 'nan_rate': int(nan_rate), 'data_seed': int(rng.integers(0, 2 ** 31))}
+            'n': int(rng.integers(30, 120)), 'nan_rate': int(nan_rate), 'data_seed': int(rng.integers(0, 2 ** 31)),
+            # the progress report (documented option, prints only): must not matter for the search
+            'verbose': bool(rng.uniform() < 0.5)}
 
 
 # --------------------------------------------------------------------------------------------- driver
@@ -949,6 +1083,10 @@ def _run(chk, drv, rng, tier, check_sl_, check_stepwise_, check_refit_):
             z['cands'] = [{'flavor': 0}, {'flavor': 2}]
             check_sl_(z)
             check_refit_(make_sl_case(rng, loss, False, 3, 3))
+            # matched sets with group-specific learners: candidates exactly tied for the largest weight
+            for L in (2, 3, 4):
+                check_sl_(make_matched_case(rng, loss, True, L, int(rng.integers(2, 11))))
+            check_sl_(make_matched_case(rng, loss, False, int(rng.integers(2, 5)), int(rng.integers(2, 11))))
         for d in ('backward', 'forward'):
             for fam in ('gaussian', 'binomial', 'poisson'):
                 for order in (0, 1, 2):
